@@ -1388,3 +1388,29 @@ Proof.
           end) l l').
     rewrite (Hl l'). split; intros H0; congruence.
 Qed.
+
+(* the padding count of a round-tripping S1/S2 sample is exactly the number of bytes behind
+   the position where the reader stops *)
+Theorem padding_is_reader_rest : forall V E t v,
+  is_aggr t = true -> tgood V t = true -> wt t v = true -> val_nonascii_char v = false ->
+  exists bs p, encode V E t v = Ok bs /\ decode_end t bs = Some p /\ nth 3 bs 0 = blen bs - 4 - p.
+Proof.
+  intros V E t v Ha Hg Hw Hn.
+  destruct (rt_ty V E t Hg v Hw Hn 0 ltac:(lia)) as [body [E1 D1]].
+  unfold encode. rewrite Ha, E1. cbn [bind].
+  set (n := pad_count (blen ([0; repr_id V E (ty_ext t); 0; 0] ++ body))).
+  eexists. exists (blen body). split; [reflexivity|].
+  cbn [app set_nth3]. unfold decode_end.
+  assert (Hve : (if (repr_id V E (ty_ext t) =? 0) || (repr_id V E (ty_ext t) =? 2) then Some (V1, BE)
+                 else if (repr_id V E (ty_ext t) =? 1) || (repr_id V E (ty_ext t) =? 3) then Some (V1, LE)
+                 else if (repr_id V E (ty_ext t) =? 6) || (repr_id V E (ty_ext t) =? 8) || (repr_id V E (ty_ext t) =? 10)
+                      then Some (V2, BE)
+                 else if (repr_id V E (ty_ext t) =? 7) || (repr_id V E (ty_ext t) =? 9) || (repr_id V E (ty_ext t) =? 11)
+                      then Some (V2, LE)
+                 else None) = Some (V, E)) by (destruct V, E, (ty_ext t); reflexivity).
+  cbv zeta. rewrite Hve.
+  specialize (D1 [] (zeros n) eq_refl). cbn [app] in D1. rewrite D1.
+  split; [reflexivity|]. cbn [nth]. rewrite !blen_cons, blen_app, blen_zeros.
+  - lia.
+  - subst n. apply pad_count_range.
+Qed.
